@@ -9,7 +9,7 @@ import (
 	"strings"
 )
 
-func writeEvidence(prop, tier string, seed uint64, cfg propCfg, a *agg, b *buildOut, wall, buildS float64, newViol, knownViol int, exhaustive bool) {
+func writeEvidence(prop, tier string, seed uint64, cfg propCfg, a *agg, b *buildOut, wall, buildS float64, newViol, knownViol int, exhaustive, adhoc bool) {
 	faults := map[string]int64{}
 	probes := map[string]int64{}
 	other := map[string]int64{}
@@ -87,12 +87,17 @@ func writeEvidence(prop, tier string, seed uint64, cfg propCfg, a *agg, b *build
 		"wall_s":     wall,
 		"violations": newViol,
 	}
-	os.MkdirAll(filepath.Join(verifDir, "evidence"), 0o755)
+	dir := filepath.Join(verifDir, "evidence")
+	if adhoc {
+		// --runs/--seconds experiments never overwrite the registered command's evidence
+		dir = filepath.Join(verifDir, "evidence", "adhoc")
+	}
+	os.MkdirAll(dir, 0o755)
 	out, err := json.MarshalIndent(ev, "", " ")
 	if err != nil {
 		fatal2("evidence: %v", err)
 	}
-	if err := os.WriteFile(filepath.Join(verifDir, "evidence", prop+".json"), out, 0o644); err != nil {
+	if err := os.WriteFile(filepath.Join(dir, prop+".json"), out, 0o644); err != nil {
 		fatal2("evidence: %v", err)
 	}
 	if len(zeroProbes) > 0 {
